@@ -51,7 +51,8 @@ func (l *limitReadCloser) Read(p []byte) (n int, err error) {
 	if l.closed {
 		return 0, io.EOF
 	}
-	if int64(len(p)) > (l.N + 1) {
+	// len(p) is at least 1 here; comparing this way cannot overflow when l.N is math.MaxInt64
+	if int64(len(p))-1 > l.N {
 		p = p[0:(l.N + 1)]
 	}
 	n, err = l.R.Read(p)
